@@ -38,8 +38,8 @@ ASSUMPTIONS = [
 def run(ctx):
     bindir = runner.cargo_build(["watch_tools"])
     tool = os.path.join(bindir, "watch_tools")
-    n_cases = ctx.pick(320, 16000)
-    n_real = ctx.pick(8, 200)
+    n_cases = ctx.pick(320, 10000)
+    n_real = ctx.pick(8, 120)
     real_steps = ctx.pick(6, 14)
     nshards = runner.NCPU
     work = ctx.work
